@@ -1,15 +1,23 @@
 import MoneroModel.Model.TxHash
 import MoneroModel.Proofs.TxSound4
+import MoneroModel.Proofs.WireSkip
 import MoneroModel.Props.C03
 open Monero
 /-! # C05 — transaction identifier and prefix hash follow the Monero definition
 
-For a strictly parsed transaction `tx b = some (t, [])` the identifier computed from the parsed value is the Monero
-formula over byte ranges of `b` itself, with `p = |prefix|` and `q = p + |RingCT base|` the format's boundaries.
+For a parsed transaction `tx b = some (t, r)` (strict: `r = []`) the identifier computed from the parsed value is the Monero
+formula over byte ranges of `b` itself. The theorems of the first part use `pOf t` / `qOf t`, the lengths of the MODEL's
+re-encoding of the parsed prefix and RingCT base (functions of the parsed value). That these are the boundaries of the FORMAT is a
+separate statement, `C05_bounds_are_skipper`: for every accepted byte string — every version, every remainder — the by-the-book
+skipper `Spec.txBounds` (Spec/TxSkip.lean: walks the raw bytes by tags and counts, builds no value, knows nothing of the model)
+succeeds and returns exactly `pOf t`, `qOf t`, the Null flag and (version 1 / no inputs / Null) the end of the transaction.
+`C05_id_skipper` combines both: identifier and prefix hash as the Monero formula over ranges of `b` found by the skipper alone.
+For descriptions (versions 1 and 2) `C05_id_spec_bytes` additionally equates them with `|specPrefix d|`, `|specBase r|` of Spec/Wire.
 `H` is an arbitrary function (Keccak-256 in the code; C17). -/
 namespace C05
 
-/-- boundaries of a parsed transaction: end of prefix, end of RingCT base -/
+/-- boundaries of a parsed transaction as lengths of the model's re-encoding of the parsed VALUE: end of prefix, end of RingCT base.
+(Equal to the by-the-book skipper's `p`, `q` on the received bytes: `C05_bounds_are_skipper`.) -/
 def pOf (t : Tx) : Nat := (encPrefix t.pre).length
 def qOf (t : Tx) : Nat := pOf t + (match t.base with | some b => (encBase b).length | none => 0)
 
@@ -83,8 +91,9 @@ theorem parsed_shape (b : Bytes) (t : Tx) (r : Bytes) (h : tx b = some (t, r)) (
         obtain ⟨rfl, _⟩ := pure_some h4
         exact ⟨bs, rfl, fun _ => rfl, fun h0 => absurd (by simpa using hty) h0⟩
 
-/-- RingCT transactions (version ≠ 1, at least one input, any of the seven types):
-id = H( H(b[0..p]) ‖ H(b[p..q]) ‖ (type = Null ? 0^32 : H(b[q..])) ) -/
+/-- RingCT transactions (EVERY version ≠ 1, at least one input, any of the seven types):
+id = H( H(b[0..p]) ‖ H(b[p..q]) ‖ (type = Null ? 0^32 : H(b[q..])) ), with `p = pOf t`, `q = qOf t`
+(the skipper's boundaries: `C05_bounds_are_skipper`) -/
 theorem C05_id_rct (H : Bytes → Bytes) (b : Bytes) (t : Tx) (h : tx b = some (t, [])) (hv : t.pre.version ≠ 1)
     (hi : t.pre.ins ≠ []) :
     ∃ bs, t.base = some bs ∧
@@ -116,11 +125,27 @@ theorem C05_id_rct (H : Bytes → Bytes) (b : Bytes) (t : Tx) (h : tx b = some (
       List.drop_eq_nil_of_le (by omega)
     simp [List.drop_append, hd]
 
-/-- the identifier is a function of the received bytes alone: two strict parses of the same bytes cannot give
-different identifiers, and equal identifiers' preimages are determined by `b` -/
-theorem C05_function_of_bytes (H : Bytes → Bytes) (b : Bytes) (t t' : Tx) (h : tx b = some (t, [])) (h' : tx b = some (t', [])) :
-    txHash H t = txHash H t' := by
-  rw [h] at h'; cases h'; rfl
+/-- the identifier depends on nothing but the CONSUMED bytes: two accepted byte strings whose consumed parts are equal (whatever
+follows them, whatever else differs) yield the same parsed value, hence the same identifier and prefix hash. (Not the determinism of
+a Lean function: `b` and `b'` differ; the content is that the decoder's result is determined by — and only by — the bytes it
+consumed, from `tx_consumed_prefix`, `decoded_wf_tx` and `complete_tx`.) -/
+theorem C05_function_of_consumed (H : Bytes → Bytes) (b b' : Bytes) (t t' : Tx) (r r' : Bytes)
+    (h : tx b = some (t, r)) (h' : tx b' = some (t', r'))
+    (he : b.take (b.length - r.length) = b'.take (b'.length - r'.length)) :
+    t = t' ∧ txHash H t = txHash H t' ∧ prefixHash H t.pre = prefixHash H t'.pre := by
+  have e1 := tx_consumed_prefix b t r h
+  have e2 := tx_consumed_prefix b' t' r' h'
+  have ee : encTx t = encTx t' := by rw [e1, e2, he]
+  have c1 := complete_tx t [] (decoded_wf_tx b t r h)
+  have c2 := complete_tx t' [] (decoded_wf_tx b' t' r' h')
+  rw [ee, c2] at c1
+  have : t' = t := by simpa using c1
+  subst this
+  exact ⟨rfl, rfl, rfl⟩
+
+/- non-vacuity: two different byte strings (different remainders) with the same consumed part -/
+example : ∃ t, tx [2, 0, 1, 0xff, 5, 0, 0, 0, 7] = some (t, [7]) ∧ tx [2, 0, 1, 0xff, 5, 0, 0, 0, 9, 9] = some (t, [9, 9]) :=
+  ⟨⟨⟨2, 0, [.gen 5], [], []⟩, [], some ⟨0, 0, [], [], []⟩, none⟩, by rfl, by rfl⟩
 
 /-- the excluded point (recorded in DESIGN.md §8): a non-v1 transaction without inputs carries no RingCT data, and the
 library's identifier is `H(H(prefix))` -/
@@ -181,7 +206,7 @@ theorem ofNat_ty_zero (n : Nat) (h : n ≤ 6) : UInt8.ofNat n = 0 ↔ n = 0 := b
   have h' : n < 7 := by omega
   revert h'; revert n; decide
 
-theorem encBase_ne_nil (bs : Base) : encBase bs = UInt8.ofNat bs.ty :: (encBase bs).tail := by
+theorem encBase_head (bs : Base) : encBase bs = UInt8.ofNat bs.ty :: (encBase bs).tail := by
   simp [encBase]
 
 /-! ## Embedded (non-strict) parses: `tx b = some (t, r)` with a remainder `r` — the situation of the miner transaction
@@ -226,11 +251,11 @@ theorem C05_id_rct_embedded (H : Bytes → Bytes) (b : Bytes) (t : Tx) (r : Byte
   rw [← hc]
   have hq : qOf t - pOf t = (encBase bs).length := by simp [qOf, hb]
   have hq2 : qOf t = (encPrefix t.pre).length + (encBase bs).length := by simp [qOf, pOf, hb]
-  have hlen : 1 ≤ (encBase bs).length := by rw [encBase_ne_nil]; simp
+  have hlen : 1 ≤ (encBase bs).length := by rw [encBase_head]; simp
   have hbyte : ∀ (x : Bytes), (encPrefix t.pre ++ (encBase bs ++ x))[pOf t]? = some (UInt8.ofNat bs.ty) := by
     intro x
     unfold pOf
-    rw [List.getElem?_append_right (Nat.le_refl _), Nat.sub_self, encBase_ne_nil]
+    rw [List.getElem?_append_right (Nat.le_refl _), Nat.sub_self, encBase_head]
     rfl
   by_cases hty : bs.ty = 0
   · have hp := hz hty
@@ -328,15 +353,169 @@ theorem C05_no_inputs_parsed (H : Bytes → Bytes) (b : Bytes) (t : Tx) (h : tx 
   refine ⟨hb.1, hb.2, he, ?_⟩
   rw [C05_no_inputs H t hv hb.1, ← he]
 
+/-- the format is prefix-free, so an identifier is defined by a WHOLE blob only: if `b ++ s` parses strictly for some non-empty `s`, then
+`b` itself (the blob cut short) does not — no transaction, hence no identifier, is defined by a truncated serialisation
+(harness family `id.cut-short`) -/
+theorem C05_no_id_for_proper_prefix (b s : Bytes) (t : Tx) (h : tx (b ++ s) = some (t, [])) (hs : s ≠ []) :
+    ∀ t', tx b ≠ some (t', []) := by
+  intro t' h'
+  have e := sound_tx b t' [] h'
+  simp only [List.append_nil] at e
+  have c := complete_tx t' s (decoded_wf_tx b t' [] h')
+  rw [← e, h] at c
+  have hc : t = t' ∧ [] = s := by simpa using c
+  exact hs hc.2.symm
+
+/- non-vacuity: the Null coinbase transaction is `[2, 0, 1, 0xff, 5, 0, 0] ++ [0]` -/
+example : ∃ t, tx ([2, 0, 1, 0xff, 5, 0, 0] ++ [0]) = some (t, []) :=
+  ⟨⟨⟨2, 0, [.gen 5], [], []⟩, [], some ⟨0, 0, [], [], []⟩, none⟩, by rfl⟩
+
+/-! ## The boundaries are the format's: the by-the-book skipper (Spec/TxSkip.lean), every version, every remainder -/
+
+/-- for EVERY accepted byte string (`tx b = some (t, r)`: any version — 0, 1, 2, 3, …, 2^64−1 —, any remainder `r`) the by-the-book
+skipper `Spec.txBounds`, which walks the raw bytes by the tags and counts of `transaction_prefix` / `rctSigBase` and knows nothing of
+the model, succeeds, and what it returns is what the theorems above call `pOf t`, `qOf t`: the version, the input and output counts, the
+end `p` of the prefix; there is RingCT data exactly when the version is not 1 and there is an input, and then `q` is the end of the
+base and the Null flag is the test `b[p] = 0`; where the skipper reports an end of the whole transaction (version 1: `p + 64·ring
+members`; no inputs: `p`; Null: `q`) it is the number of bytes the decoder consumed, and it reports one exactly in those cases -/
+theorem C05_bounds_are_skipper (b : Bytes) (t : Tx) (r : Bytes) (h : tx b = some (t, r)) :
+    ∃ bd, Spec.txBounds b = some bd ∧ bd.version = t.pre.version ∧ bd.inputs = t.pre.ins.length ∧
+      bd.outputs = t.pre.outs.length ∧ bd.p = pOf t ∧
+      (bd.hasRct = true ↔ t.pre.version ≠ 1 ∧ t.pre.ins ≠ []) ∧
+      (bd.hasRct = true → bd.q = qOf t ∧ (bd.isNull = true ↔ b[pOf t]? = some 0)) ∧
+      (∀ e, bd.end? = some e → e = b.length - r.length) ∧
+      (bd.end? = none ↔ bd.hasRct = true ∧ bd.isNull = false) := by
+  obtain ⟨bd, h1, h2, h3, h4, h5, h6, h7, h8, h9⟩ := WireSkip.txBounds_of_tx b t r h
+  refine ⟨bd, h1, h2, h3, h4, h5, h6, ?_, h8, h9⟩
+  intro hr
+  obtain ⟨bs, hb, hq, hn⟩ := h7 hr
+  obtain ⟨hv, hi⟩ := h6.1 hr
+  obtain ⟨bs', hb', hty6, _, _, _, hbyte, _⟩ := C05_id_rct_embedded id b t r h hv hi
+  rw [hb] at hb'; cases hb'
+  refine ⟨by simp [qOf, pOf, hb, hq], ?_⟩
+  rw [hn, hbyte]
+  constructor
+  · intro h0; rw [h0]; rfl
+  · intro h0; exact (ofNat_ty_zero bs.ty hty6).1 (Option.some.inj h0)
+
+/-- `TransactionPrefix::hash` of a prefix parsed ON ITS OWN (strictly): the hash of exactly the received bytes, which the by-the-book
+prefix walker consumes entirely (harness op `c05_prefixhash`) -/
+theorem C05_prefix_hash_standalone (H : Bytes → Bytes) (b : Bytes) (p : Prefix) (h : prefix' b = some (p, [])) :
+    prefixHash H p = H b ∧ ∃ pe, Spec.skipPrefix b = some pe ∧ pe.rest = [] ∧ pe.version = p.version ∧
+      pe.inputs = p.ins.length ∧ pe.outputs = p.outs.length := by
+  have e := sound_prefix b p [] h
+  simp only [List.append_nil] at e
+  exact ⟨by rw [e]; rfl, _, WireSkip.skipPrefix_of_prefix h, rfl, rfl, rfl, rfl⟩
+
+example : ∃ p, prefix' [2, 0, 1, 0xff, 5, 0, 0] = some (p, []) ∧ p.ins.length = 1 :=
+  ⟨⟨2, 0, [.gen 5], [], []⟩, by rfl, rfl⟩
+
+/-- THE PROPERTY over the received bytes and the skipper alone (no `pOf`, `qOf`, no re-encoding): whenever the decoder accepts `b`
+(leaving `r`; strict parsing is `r = []`), with `bd` the skipper's answer on `b` and `b'` the consumed part,
+* prefix hash = H(b[0..p]);
+* version 1: the skipper reports the end `e` of the transaction and id = H(b[0..e]);
+* RingCT data present (version ≠ 1, an input): `p < q ≤ |b'|` and id = H( H(b[0..p]) ‖ H(b[p..q]) ‖ (Null ? 0^32 : H(b'[q..])) );
+* the excluded point (version ≠ 1, no input: no RingCT type exists, DESIGN.md §8): the library's id is H(H(b[0..p])). -/
+theorem C05_id_skipper (H : Bytes → Bytes) (b : Bytes) (t : Tx) (r : Bytes) (h : tx b = some (t, r)) :
+    ∃ bd, Spec.txBounds b = some bd ∧
+      prefixHash H t.pre = H (b.take bd.p) ∧
+      (bd.version = 1 → ∃ e, bd.end? = some e ∧ txHash H t = H (b.take e)) ∧
+      (bd.hasRct = true → bd.p < bd.q ∧ bd.q ≤ b.length - r.length ∧
+        txHash H t = H (H (b.take bd.p) ++ H ((b.drop bd.p).take (bd.q - bd.p)) ++
+          (if bd.isNull = true then zeroHash else H ((b.take (b.length - r.length)).drop bd.q)))) ∧
+      (bd.version ≠ 1 → bd.hasRct = false → txHash H t = H (H (b.take bd.p))) := by
+  obtain ⟨bd, h1, hv, _, _, hp, hrct, hq, hend, hnone⟩ := C05_bounds_are_skipper b t r h
+  have hph := C05_prefix_hash_embedded H b t r h
+  refine ⟨bd, h1, by rw [hp]; exact hph.1, ?_, ?_, ?_⟩
+  · intro hv1
+    rw [hv] at hv1
+    have hnr : ¬ bd.hasRct = true := fun hh => (hrct.1 hh).1 hv1
+    cases he : bd.end? with
+    | none => exact absurd (hnone.1 he).1 hnr
+    | some e =>
+      refine ⟨e, rfl, ?_⟩
+      rw [hend e he]
+      exact (C05_id_v1_embedded H b t r h hv1).2
+  · intro hh
+    obtain ⟨hv1, hi⟩ := hrct.1 hh
+    obtain ⟨hqq, hnull⟩ := hq hh
+    obtain ⟨bs, _, _, _, hpq, hql, _, hid⟩ := C05_id_rct_embedded H b t r h hv1 hi
+    rw [hp, hqq]
+    refine ⟨hpq, hql, ?_⟩
+    rw [hid]
+    have hpl : pOf t ≤ b.length - r.length := by omega
+    have e1 : (b.take (b.length - r.length)).take (pOf t) = b.take (pOf t) := by
+      rw [List.take_take, Nat.min_eq_left hpl]
+    have e2 : ((b.take (b.length - r.length)).drop (pOf t)).take (qOf t - pOf t) = (b.drop (pOf t)).take (qOf t - pOf t) := by
+      rw [List.drop_take, List.take_take, Nat.min_eq_left (by omega)]
+    rw [e1, e2]
+    by_cases hz : b[pOf t]? = some 0
+    · simp [hz, hnull.2 hz]
+    · have : ¬ bd.isNull = true := fun hh2 => hz (hnull.1 hh2)
+      simp [hz, this]
+  · intro hv1 hnr
+    rw [hv] at hv1
+    have hi : t.pre.ins = [] := by
+      apply Classical.byContradiction
+      intro hne
+      have := hrct.2 ⟨hv1, hne⟩
+      rw [hnr] at this; exact absurd this (by decide)
+    have hb : t.base = none := ((decoded_wf_tx b t r h).2.2 hv1).2.1 hi |>.1
+    rw [C05_no_inputs H t hv1 hb, hp, ← hph.1]; rfl
+
+/-- strict parsing, same statement: the third hash is over `b[q..]` and the version-1 identifier is `H b` -/
+theorem C05_id_skipper_strict (H : Bytes → Bytes) (b : Bytes) (t : Tx) (h : tx b = some (t, [])) :
+    ∃ bd, Spec.txBounds b = some bd ∧
+      prefixHash H t.pre = H (b.take bd.p) ∧
+      (bd.version = 1 → txHash H t = H b) ∧
+      (bd.hasRct = true → bd.p < bd.q ∧ bd.q ≤ b.length ∧
+        txHash H t = H (H (b.take bd.p) ++ H ((b.drop bd.p).take (bd.q - bd.p)) ++
+          (if bd.isNull = true then zeroHash else H (b.drop bd.q)))) := by
+  obtain ⟨bd, h1, h2, h3, h4, _⟩ := C05_id_skipper H b t [] h
+  refine ⟨bd, h1, h2, ?_, ?_⟩
+  · intro hv
+    obtain ⟨bd', h1', hv', _⟩ := C05_bounds_are_skipper b t [] h
+    rw [h1] at h1'; cases h1'
+    exact C05_id_v1 H b t h (by rw [← hv']; exact hv)
+  · intro hh
+    have := h4 hh
+    simpa using this
+
+/- non-vacuity of the skipper theorems: (1) a VERSION-1 transaction with one key input of ring size 1 (hence one 64-byte signature)
+followed by a remainder byte — the skipper reports the end of the transaction, one byte before the end of the input; (2) a
+VERSION-3 Null coinbase followed by two bytes — the skipper finds RingCT data; (3) the Clsag description at the end of the file -/
+example : ∃ t bd e, tx ([1, 0, 1, 2, 0, 1, 7] ++ List.replicate 32 9 ++ [0, 0] ++ List.replicate 64 5 ++ [0xaa]) = some (t, [0xaa]) ∧
+    t.pre.version = 1 ∧ t.sigs = [[List.replicate 64 5]] ∧
+    Spec.txBounds ([1, 0, 1, 2, 0, 1, 7] ++ List.replicate 32 9 ++ [0, 0] ++ List.replicate 64 5 ++ [0xaa]) = some bd ∧
+    bd.version = 1 ∧ bd.inputs = 1 ∧ bd.hasRct = false ∧ bd.end? = some e ∧ e = 105 := by
+  have ht : tx ([1, 0, 1, 2, 0, 1, 7] ++ List.replicate 32 9 ++ [0, 0] ++ List.replicate 64 5 ++ [0xaa]) =
+      some (⟨⟨1, 0, [.toKey 0 [7] (List.replicate 32 9)], [], []⟩, [[List.replicate 64 5]], none, none⟩, [0xaa]) := by rfl
+  obtain ⟨bd, h1, hv, hi, _, _, hrct, _, hend, hnone⟩ := C05_bounds_are_skipper _ _ _ ht
+  have hnr : bd.hasRct = false := by
+    cases hh : bd.hasRct with
+    | false => rfl
+    | true => exact absurd rfl (hrct.1 hh).1
+  cases he : bd.end? with
+  | none => have := (hnone.1 he).1; rw [hnr] at this; exact absurd this (by decide)
+  | some e => exact ⟨_, bd, e, ht, rfl, rfl, h1, hv, hi, hnr, he, by rw [hend e he]; simp⟩
+example : ∃ t bd, tx [3, 0, 1, 0xff, 5, 0, 0, 0, 7, 7] = some (t, [7, 7]) ∧ t.pre.version = 3 ∧
+    Spec.txBounds [3, 0, 1, 0xff, 5, 0, 0, 0, 7, 7] = some bd ∧ bd.version = 3 ∧ bd.hasRct = true := by
+  have ht : tx [3, 0, 1, 0xff, 5, 0, 0, 0, 7, 7] = some (⟨⟨3, 0, [.gen 5], [], []⟩, [], some ⟨0, 0, [], [], []⟩, none⟩, [7, 7]) := by rfl
+  obtain ⟨bd, h1, hv, _, _, _, hrct, _⟩ := C05_bounds_are_skipper _ _ _ ht
+  exact ⟨_, bd, ht, rfl, h1, hv, hrct.2 ⟨by decide, by simp⟩⟩
+
 /-! ## Against the independent by-the-book specification (Spec/Wire.lean: `specTxId`, `specPrefixHash`)
 
 `Spec.specTxId` is written over DESCRIPTIONS with the boundaries of the format itself (`specPrefix`, `specBase`, `specPrunable` are
-three separately written concatenations); it mentions neither the model nor its encoder. These theorems make `p`, `q` "known from the
-format": they are `|specPrefix d|` and `|specPrefix d| + |specBase r|`. -/
+three separately written concatenations); it mentions neither the model nor its encoder. For the bytes of a description these
+theorems give `p`, `q` a second, independent reading: `|specPrefix d|` and `|specPrefix d| + |specBase r|`. A description has no
+version field (`TxD.version ∈ {1, 2}`), so this tie covers versions 1 and 2 only; `Transaction::hash` takes the RingCT branch for
+EVERY version ≠ 1, and for those (and for arbitrary parsable bytes) the tie to the format is `C05_bounds_are_skipper` / `C05_id_skipper`. -/
 
 /-- the model of `Transaction::hash` / `TransactionPrefix::hash` applied to the value a description denotes gives the by-the-book
 identifier and prefix hash — for EVERY description with RingCT data or version 1 (no well-shapedness needed); BulletproofPlus below
-128 proofs (beyond that the library's prunable bytes are not Monero's: known finding of C03, which also moves the identifier) -/
+128 proofs (beyond that the library's prunable bytes are not Monero's: known finding of C03, which also moves the identifier).
+(Descriptions denote versions 1 and 2 only; other versions: `C05_id_rct` + `C05_bounds_are_skipper`.) -/
 theorem C05_id_eq_spec (H : Bytes → Bytes) (d : Spec.TxD) (hb : C03.BppSmall d) (hne : d.body ≠ .v2 none) :
     some (txHash H (build d)) = Spec.specTxId H d ∧ prefixHash H (build d).pre = Spec.specPrefixHash H d := by
   have hpre : prefixHash H (build d).pre = Spec.specPrefixHash H d := by
@@ -386,8 +565,9 @@ theorem C05_id_eq_spec (H : Bytes → Bytes) (d : Spec.TxD) (hb : C03.BppSmall d
 def baseLenD (d : Spec.TxD) : Nat := match d.body with | .v2 (some r) => (Spec.specBase r).length | _ => 0
 
 /-- byte-level form: the by-the-book bytes of a well-shaped description (within the decoder's caps) parse strictly, the parsed
-value's identifier and prefix hash are the by-the-book ones, and the boundaries used by `C05_prefix_hash` / `C05_id_rct` are the
-format's: `p = |specPrefix d|`, `q = p + |specBase r|` -/
+value's identifier and prefix hash are the by-the-book ones, and on these bytes the boundaries used by `C05_prefix_hash` / `C05_id_rct`
+are those of Spec/Wire: `p = |specPrefix d|`, `q = p + |specBase r|` (versions 1 and 2, well-shaped, < 128 BP+ proofs; for arbitrary
+accepted bytes of any version: `C05_bounds_are_skipper`) -/
 theorem C05_id_spec_bytes (H : Bytes → Bytes) (d : Spec.TxD) (hb : C03.BppSmall d) (h : Spec.WFTxD d) (hc : CapD d)
     (hne : d.body ≠ .v2 none) :
     ∃ t, tx (Spec.specTx d) = some (t, []) ∧ some (txHash H t) = Spec.specTxId H d ∧
@@ -429,6 +609,30 @@ example : ∃ (d : Spec.TxD) (t : Tx), Spec.WFTxD d ∧ CapD d ∧ C03.BppSmall 
 /- non-vacuity of `C05_no_inputs_parsed`: `02 00 00 00 00` parses strictly to a version-2 transaction without inputs -/
 example : ∃ t, tx [2, 0, 0, 0, 0] = some (t, []) ∧ t.pre.version ≠ 1 ∧ t.pre.ins = [] := by
   refine ⟨⟨⟨2, 0, [], [], []⟩, [], none, none⟩, by rfl, by decide, rfl⟩
+
+/- non-vacuity of `C05_id_v1` / `C05_id_v1_embedded`: a version-1 transaction without inputs, strict and with a remainder (a version-1
+transaction WITH a key input, its signature row and a remainder is the first example after `C05_id_skipper_strict`) -/
+example : ∃ t, tx [1, 0, 0, 0, 0] = some (t, []) ∧ t.pre.version = 1 :=
+  ⟨⟨⟨1, 0, [], [], []⟩, [], none, none⟩, by rfl, rfl⟩
+example : ∃ t, tx [1, 0, 0, 0, 0, 9] = some (t, [9]) ∧ t.pre.version = 1 :=
+  ⟨⟨⟨1, 0, [], [], []⟩, [], none, none⟩, by rfl, rfl⟩
+
+/- non-vacuity of `C05_id_rct_embedded` with a NON-Null type and a remainder: the Clsag description above followed by `[7, 7]` -/
+example : ∃ (b : Bytes) (t : Tx), tx (b ++ [7, 7]) = some (t, [7, 7]) ∧ t.pre.version ≠ 1 ∧ t.pre.ins ≠ [] ∧
+    ∃ bs, t.base = some bs ∧ bs.ty = 5 := by
+  let k : Spec.B := List.replicate 32 7
+  let bp : Spec.BpD := ⟨k, k, k, k, k, k, [k, k], [k, k], k, k, k⟩
+  let d : Spec.TxD := ⟨0, [.key 0 [5, 1] k], [⟨0, k, some 9⟩], [1, 2, 3],
+    .v2 (some (.clsag 1000 [List.replicate 8 0] [k] [bp] [⟨[k, k], k, k⟩] [k]))⟩
+  have hk : Spec.is32 k := rfl
+  have hw : Spec.WFTxD d := by
+    simp [Spec.WFTxD, d, bp, Spec.WFIn, Spec.WFOut, Spec.WFBody, Spec.WFRct, Spec.WFBp, Spec.WFClsag, Spec.WFEcdh8,
+      Spec.all32, Spec.u64, Spec.ringSize, hk]
+  have hc : CapD d := by
+    simp [CapD, CapBody, CapRct, CapBp, CapIn, capN, d, bp, CAP, Gen.CAP, sizes, Gen.sizes]
+  have hb : C03.BppSmall d := by
+    intro fee e o bpps cls po h; simp [d] at h
+  exact ⟨Spec.specTx d, build d, C03.C03_dec_spec_desc d hb hw hc [7, 7], by decide, by simp [build, buildPrefix, d], ⟨_, rfl, rfl⟩⟩
 
 /- non-vacuity of the embedded theorems: the Null coinbase transaction followed by two more bytes -/
 example : ∃ t, tx [2, 0, 1, 0xff, 5, 0, 0, 0, 7, 7] = some (t, [7, 7]) ∧ t.pre.version ≠ 1 ∧ t.pre.ins ≠ [] := by
